@@ -143,7 +143,7 @@ def _formatter(run: Run, prog: Program, model: Model, err_kinds: Dict[str, Set[s
                              witness=f"error.format(Formatter()) raises / is empty for a {ann} built on a {k} value")
             else:
                 run.holds("FORMAT-TOTAL", construct, m.loc, f"{len(ps)} paths total; message has literal text", nontrivial=True)
-    run.floor("FORMAT-TOTAL", 16)
+    run.floor("FORMAT-TOTAL", 12)
 
 
 def _or_fail(run: Run, prog: Program, model: Model) -> None:
